@@ -166,6 +166,7 @@ class V:
     py: Any = None               # executor-level object (module path, class, function, bound method...)
     lit: Any = None              # concrete python constant when known (str / int / float / bool)
     tok: list | None = None      # string built by an f-string: list of str | V
+    raw: Any = None              # exact z3 Int term of an int-kinded value
 
     @property
     def kind(self):
@@ -255,8 +256,10 @@ def _to_real(x):
 
 def v_int(i) -> V:
     if isinstance(i, int):
-        return V(Val.num(z3.RealVal(i)), INT, lit=i)
-    return V(Val.num(z3.ToReal(i) if z3.is_int(i) else i), INT)
+        return V(Val.num(z3.RealVal(i)), INT, lit=i, raw=z3.IntVal(i))
+    if z3.is_int(i):
+        return V(Val.num(z3.ToReal(i)), INT, raw=i)
+    return V(Val.num(i), INT)
 
 
 def v_real(r) -> V:
@@ -299,6 +302,8 @@ def as_real(v: V):
 
 
 def as_int(v: V):
+    if v.raw is not None and v.kind in ('int', 'bool'):
+        return v.raw
     r = as_real(v)
     # ToInt(ToReal(k)) -> k
     if z3.is_app(r) and r.decl().kind() == z3.Z3_OP_TO_REAL:
@@ -343,6 +348,32 @@ def uf(name: str, *sorts):
     if key not in _ufs:
         _ufs[key] = z3.Function(name, *sorts)
     return _ufs[key]
+
+
+def join_ty(a: T, b: T) -> T:
+    """Least common type hint of two values that are merged at a join."""
+    if a == b:
+        return a
+    opt = False
+    if a.kind == 'opt':
+        a, opt = a.args[0], True
+    if b.kind == 'opt':
+        b, opt = b.args[0], True
+    if a.kind == 'none':
+        return TOpt(b)
+    if b.kind == 'none':
+        return TOpt(a)
+    if a == b:
+        j = a
+    elif a.kind in ('int', 'real', 'bool') and b.kind in ('int', 'real', 'bool'):
+        j = INT if {a.kind, b.kind} <= {'int', 'bool'} else REAL
+    elif a.kind == b.kind and a.kind in ('list', 'dict', 'set') and len(a.args) == len(b.args):
+        j = T(a.kind, args=tuple(join_ty(x, y) for x, y in zip(a.args, b.args)))
+    elif a.kind == 'ref' and b.kind == 'ref':
+        j = T('ref', cls=None)
+    else:
+        return ANY
+    return TOpt(j) if opt else j
 
 
 def type_invariant(v: V, depth: int = 0) -> list:
